@@ -3,6 +3,7 @@
 //!   harness c06 walk <seed> <nwalks> <max_events> <max_jobs> <max_procs> <max_launches>
 //!   harness c06 replay <max_events> <max_jobs> <max_procs> <max_launches> <c0,c1,...>
 //!   harness c05 ...   (see c05.rs)
+mod c01;
 mod c05;
 mod c06;
 mod c20;
@@ -179,6 +180,7 @@ fn main() {
     }
     match args[1].as_str() {
         "c06" => c06_main(&args[2..]),
+        "c01" => c01::main(&args[2..]),
         "c05" => c05::main(&args[2..]),
         "c20" => c20::main(&args[2..]),
         "c20cand" => c20::cand_main(&args[2..]),
